@@ -197,12 +197,12 @@ def cases(run):
                        "included) x strand {+,-,.} x both partial marks x feature class (rotating); cdsfeat: the designed "
                        "product first codon(9) x last codon(5) x middle(4) x trailing bases(3) x start frame(3) x strand "
                        "x table {0,1,11} x layout(4)" + (" sampled at 9% in quick" if quick else " complete"))
-    # ---- regression inputs (known defects / documented refusals)
+    # ---- regression inputs (repaired defects F-C17a/b, F-C19e; open finding F-C17c; documented refusals)
     ncgene = "lncRNA g0 1 ~ + 1 3 9 0"
-    yield f"coll E 0 LT 5 0 lab chr1 {'ACGT' * 8} 1 protein_coding g0 1 protein_coding + 1 2 11 1 2 11 0 0"   # F-C17a
-    yield f"coll E 0 LT 5 7 lab chr1 {'ACGT' * 8} 1 {ncgene}"                                                    # F-C17b
+    yield f"coll E 0 LT 5 0 lab chr1 {'ACGT' * 8} 1 protein_coding g0 1 protein_coding + 1 2 11 1 2 11 0 0"   # seed 0 (F-C17a, repaired)
+    yield f"coll E 0 LT 5 7 lab chr1 {'ACGT' * 8} 1 {ncgene}"                                                    # F-C17b (repaired)
     yield f"tblgene 0 {'ACGT' * 8} {ncgene}"
-    yield f"coll E 0 LT 5 7 lab chr1 {'ACGT' * 8} 1 protein_coding g0 1 protein_coding + 1 0 3 1 0 3 2 0"      # F-C19e
+    yield f"coll E 0 LT 5 7 lab chr1 {'ACGT' * 8} 1 protein_coding g0 1 protein_coding + 1 0 3 1 0 3 2 0"      # F-C19e (repaired)
     yield f"cdsfeat 0 + {'ACGT' * 8} 1 0 3 2"
     yield (f"coll E 0 LT 5 7 lab chr1 {'ACGT' * 8} 1 protein_coding g0 2 protein_coding + 1 2 11 1 2 11 0 0 "
            "lncRNA + 1 2 9 0")                                                                                # mixed gene
@@ -219,7 +219,7 @@ def cases(run):
                         run.count(f"locstr:blocks={k}")
                         yield locstr_line(KEYS[i % len(KEYS)], st, si, ei, bl)
     # ---- locstr: random, many blocks, many digits
-    for _ in range(400 if quick else 8000):
+    for _ in range(400 if quick else 20000):
         k = rng.randint(1, 9)
         scale = rng.choice([40, 1000, 10 ** 5, 10 ** 9, 10 ** 12])
         pts = sorted(rng.sample(range(0, scale + 1), 2 * k))
@@ -237,7 +237,7 @@ def cases(run):
         yield quals_line(rng, run)
     # ---- cdsfeat: designed product
     yield from cdsfeat_designed(run)
-    # ---- seeding (`if random_seed:` — F-C17a)
+    # ---- seeding (`if random_seed is not None:`; F-C17a before /repo 2007fc1)
     for sd in ["~", "0", "1", "-1", "7", "123", str(2 ** 40), "00"]:
         run.count("seed-op")
         yield f"seed {sd}"
@@ -248,18 +248,18 @@ def cases(run):
                 run.count(f"locustags:step={step}")
                 yield f"locustags {G.enc(prefix)} {step} {len(ns)} " + " ".join(map(str, ns))
     # ---- whole collections and their genes
-    n = 900 if quick else 12000
+    n = 900 if quick else 30000
     for _ in range(n):
         coll, line = coll_case(rng, run)
         yield line
         gene = rng.choice(coll["genes"])
         run.count("tblgene")
         yield f"tblgene {rng.choice([0, 1, 11])} {coll['genome']} {G.enc_gene(gene)}"
-    # seed 0 (F-C17a): collections without adjacent exons, so that no other finding shows on the same line
+    # seed 0 (F-C17a, repaired in /repo 2007fc1)
     for _ in range(6 if quick else 40):
         _, line = coll_case(rng, run, dict(genome_len=150, gene_span=90, p_adjacent=0.0, p_coding=1.0), seed=0)
         yield line
-    # missing transcript types (F-C17b), mixed coding / non-coding genes (documented refusal)
+    # missing transcript types (F-C17b, repaired), mixed coding / non-coding genes (documented refusal)
     for _ in range(12 if quick else 100):
         _, line = coll_case(rng, run, dict(genome_len=150, gene_span=90, ttypes="none", p_coding=0.4))
         yield line
